@@ -1,6 +1,6 @@
 (* C19: the hypotheses of the theorems are satisfiable, and the model computes what one expects on small inputs. *)
 From Coq Require Import ZArith List Bool.
-From C19 Require Import Model ProofsBase ProofsInt ProofsRat ProofsElt.
+From C19 Require Import Model ProofsBase ProofsInt ProofsRat ProofsElt ProofsPoly.
 Import ListNotations.
 Local Open Scope Z_scope.
 
@@ -24,4 +24,8 @@ Example ex_ruint_range : 0 <= 2 ^ 128 - 1 < 2 ^ (64 * Z.of_nat (Nat.pow 2 1)). P
 Example ex_poly_fmt : poly_degfmt elt_write [5; 0; 3] = [50; 32; 51; 32; 48; 32; 53].    (* "2 3 0 5" *)
 Proof. vm_compute. reflexivity. Qed.
 Example ex_poly_text : poly_write [88] elt_write [5; 0; 3] = [40; 53; 41; 32; 43; 32; 40; 51; 41; 42; 88; 94; 50].  (* "(5) + (3)*X^2" *)
+Proof. vm_compute. reflexivity. Qed.
+Example ex_var_ok : var_ok [88] /\ var_ok [97; 108; 112; 104; 97] /\ var_ok [89; 49].   (* "X", "alpha", "Y1" *)
+Proof. repeat split; discriminate. Qed.
+Example ex_poly_parse : poly_parse [88] (poly_write [88] print_Z [5; 0; -3; 1]) = Some [(0, 5); (2, -3); (3, 1)].
 Proof. vm_compute. reflexivity. Qed.
